@@ -64,7 +64,10 @@ def case(g, tier, ci):
             ops.append({"op": "bp.setSegMarker", "id": "b", "name": nm, "specs": [q(r.choice([0, 1]) / SR), q(r.choice([1, 2, 3]) / SR)], "mid": mid})
     ops += [{"op": "el.new", "id": "e"}, {"op": "el.addBP", "id": "e", "ch": 1, "bp": "b"},
             {"op": "el.addArray", "id": "e", "ch": "raw", "wfm": [q(r.randint(-8, 8) / 8) for _ in range(N)], "SR": enc(SR),
-             "kw": [["m1", [r.choice([0, 1]) for _ in range(N)]], ["m2", [0] * N]]},
+             "kw": [["m1", [r.choice([0, 1]) for _ in range(N)]], ["m2", [0] * N]] +
+                   # the caller's own time axis (not the generic one): every query hands it back, with the time axis on or off
+                   # (seeded C08-m17: a query with the axis off removed it from the element)
+                   ([["time", [q(2 * k / SR) for k in range(N)]]] if ci % 2 == 1 else [])},
             {"op": "el.addFlags", "id": "e", "ch": 1, "flags": [enc(r.choice([0, 1, "H", "T"])) for _ in range(4)]},
             {"op": "el.copy", "id": "e", "to": "e2"}, {"op": "bp.copy", "id": "b", "to": "b2"}]
     # sequence
